@@ -928,6 +928,12 @@ async fn wait_quiet(reliable: bool, timeout: Duration, mut done: impl FnMut() ->
         if t0.elapsed() > timeout {
             return Quiet::Timeout;
         }
+        // no point in waiting on: the provider has already served more requests than runs that
+        // end can issue (judged by the caller as run|never_ends, see PROVIDER_REQUEST_BOUND)
+        let served = CUR_PROVIDER_REQUESTS.with(|c| c.borrow().as_ref().map(|r| r.lock().unwrap().len())).unwrap_or(0);
+        if served > PROVIDER_REQUEST_BOUND {
+            return Quiet::Timeout;
+        }
         tokio::time::sleep(Duration::from_millis(3)).await;
     }
 }
